@@ -22,6 +22,7 @@ import (
 	"os"
 	"runtime"
 	"sort"
+	"strings"
 	"sync"
 	"sync/atomic"
 	"testing"
@@ -144,7 +145,12 @@ func vfsBuild(nodes []vfsNode, pre *vfsLog) *vfsTree {
 			t.readers[id] = copies[n.Src[0]][n.Idx]
 		case "conv":
 			skip := n.Skip
+			panicAt, calls := n.N, 0 // n of a conv node = the call of the convert function that panics (0 = never)
 			t.readers[id] = StreamReaderWithConvert(t.readers[n.Src[0]], func(v int) (int, error) {
+				calls++
+				if panicAt > 0 && calls == panicAt {
+					panic("vfs convert panic")
+				}
 				if skip > 0 && v%skip == 0 {
 					return 0, ErrNoValue
 				}
@@ -204,6 +210,8 @@ func vfsRecv(l *vfsLog, sr *StreamReader[int], a int) bool {
 			v = -ve.code
 		} else if errors.Is(err, ErrRecvAfterClosed) {
 			v = -9998
+		} else if strings.Contains(err.Error(), "vfs convert panic") {
+			v = -9997 // the recovered panic of a convert function, forwarded as an error item
 		} else {
 			v = -9999
 		}
